@@ -9,7 +9,9 @@ import (
 	"fmt"
 	"go/constant"
 	"go/token"
+	"go/types"
 	"math"
+	"strings"
 
 	"golang.org/x/tools/go/ssa"
 
@@ -34,13 +36,24 @@ func cell(m *model.Model, s *ob.Set, rule, construct string, fn *ssa.Function, i
 	if len(outs) == 0 {
 		fails = append(fails, "no outcome")
 	}
+	// A path the propagation cannot follow to its end — a loop it does not see the bound of (a
+	// helper that takes the list of scalings as a slice), a Decimal that escapes into something it
+	// does not model — is not judged: that is a statement about the propagation, not about the
+	// code. On the unchanged tree no cell has such a path (asserted under -strict); on another tree
+	// they are counted in the obligation's text, and a cell none of whose paths could be followed
+	// is a shape note.
+	lost, lostWhy := 0, ""
 	for _, o := range outs {
 		f := ""
 		switch {
 		case len(o.St.Imprec) > 0:
-			f = "imprecise path: " + o.St.Imprec[0]
+			lost++
+			lostWhy = "imprecise path: " + o.St.Imprec[0]
+			continue
 		case o.Kind == "diverge":
-			f = "path does not terminate within the loop bound"
+			lost++
+			lostWhy = "path does not terminate within the loop bound"
+			continue
 		default:
 			f = check(o)
 		}
@@ -48,10 +61,18 @@ func cell(m *model.Model, s *ob.Set, rule, construct string, fn *ssa.Function, i
 			fails = append(fails, f+" :: "+outcomeStr(m, o, z))
 		}
 	}
-	if len(fails) == 0 {
-		s.Ok(rule, construct, m.Pos(fn.Pos()), fmt.Sprintf("%d paths", len(outs)))
-	} else {
+	if lost > 0 && model.Strict && len(m.Cfg.Overlay) == 0 {
+		fails = append(fails, lostWhy)
+	}
+	switch {
+	case len(fails) > 0:
 		s.Bad(rule, construct, m.Pos(fn.Pos()), fails[0], fails[1:]...)
+	case lost > 0 && lost == len(outs):
+		m.Blind("%s %s: none of the %d paths could be followed (%s)", rule, construct, len(outs), lostWhy)
+	case lost > 0:
+		s.Ok(rule, construct, m.Pos(fn.Pos()), fmt.Sprintf("%d paths, %d not followed to the end (%s)", len(outs), lost, lostWhy))
+	default:
+		s.Ok(rule, construct, m.Pos(fn.Pos()), fmt.Sprintf("%d paths", len(outs)))
 	}
 }
 
@@ -533,8 +554,9 @@ func runTUnary(m *model.Model, s *ob.Set) {
 					if len(evs) != 1 {
 						return "finite mantissa: exactly one setExpAndRound expected"
 					}
-					if a, ok := cdai.ConstInt(evs[0].Args[1]); !ok || a != 5+exx {
-						return fmt.Sprintf("setExpAndRound entered with exponent %s, want %d", cdai.Str(evs[0].Args[1]), 5+exx)
+					ei, _ := searArgs(m.TryLookup("(*Decimal).setExpAndRound"))
+					if a, ok := cdai.ConstInt(evs[0].Args[ei]); !ok || a != 5+exx {
+						return fmt.Sprintf("setExpAndRound entered with exponent %s, want %d", cdai.Str(evs[0].Args[ei]), 5+exx)
 					}
 					if b, ok := evRecvBool(m, evs[0], F.Neg); !ok || b != negOf(cc) {
 						return "setExpAndRound entered before the sign was set"
@@ -542,6 +564,109 @@ func runTUnary(m *model.Model, s *ob.Set) {
 					return ""
 				})
 			}
+		}
+	}
+
+	// ---- SetBitsExp / BitsExp
+	lenPositive := func(d cdai.Decision) (known, positive bool) {
+		// a fork on len(mantissa) against 0 or 1: what the taken edge says about len > 0
+		x, y, op := d.X, d.Y, d.Op
+		if _, isSym := y.(cdai.Sym); isSym {
+			if mo, ok := map[token.Token]token.Token{token.EQL: token.EQL, token.NEQ: token.NEQ, token.LSS: token.GTR, token.GTR: token.LSS, token.LEQ: token.GEQ, token.GEQ: token.LEQ}[op]; ok {
+				x, y, op = y, x, mo
+			}
+		}
+		sx, ok := x.(cdai.Sym)
+		k, isK := cdai.ConstInt(y)
+		if !ok || !isK || !strings.HasPrefix(sx.Name, "len(") {
+			return false, false
+		}
+		if !d.Taken {
+			op = map[token.Token]token.Token{token.EQL: token.NEQ, token.NEQ: token.EQL, token.LSS: token.GEQ, token.GEQ: token.LSS, token.GTR: token.LEQ, token.LEQ: token.GTR}[op]
+		}
+		switch {
+		case op == token.GTR && k == 0, op == token.NEQ && k == 0, op == token.GEQ && k == 1:
+			return true, true
+		case op == token.LEQ && k == 0, op == token.EQL && k == 0, op == token.LSS && k == 1:
+			return true, false
+		}
+		return false, false
+	}
+	if fn := m.TryLookup("(*Decimal).SetBitsExp"); fn != nil {
+		for c := 0; c < 6; c++ {
+			it := stdInterp(m)
+			it.Models["dec.norm"] = func(it *cdai.Interp, st *cdai.State, name string, args []cdai.Val) ([]cdai.Val, bool) {
+				if sy, ok := args[0].(cdai.Sym); ok {
+					return []cdai.Val{cdai.Sym{Name: "norm(" + sy.Name + ")"}}, true
+				}
+				return nil, false
+			}
+			it.Models["builtin.len"] = func(it *cdai.Interp, st *cdai.State, name string, args []cdai.Val) ([]cdai.Val, bool) {
+				if sy, ok := args[0].(cdai.Sym); ok {
+					return []cdai.Val{cdai.Sym{Name: "len(" + sy.Name + ")"}}, true
+				}
+				return nil, false
+			}
+			st := cdai.NewState()
+			z := mkDec(m, st, decSpec{form: i64(e.formOf(c)), neg: bptr(negOf(c)), prec: i64(5), mode: i64(zMode), acc: i64(e.below), exp: i64(9)})
+			cell(m, s, R, fmt.Sprintf("SetBitsExp(mant,3) on %s", classNames[c]), fn, it, st, []cdai.Val{z, cdai.Sym{Name: "M"}, cdai.Int(3)}, z, func(o cdai.Outcome) string {
+				if o.Kind != "return" {
+					return ""
+				}
+				known, positive := false, false
+				for _, d := range o.St.Decs {
+					if k, p := lenPositive(d); k {
+						if known && p != positive {
+							return "" // contradictory tests of the length: not a path of the program
+						}
+						known, positive = true, p
+					}
+				}
+				evs := findEvents(o.St, "(*Decimal).setExpAndRound")
+				if b, ok := fBool(m, o.St, z, F.Neg); ok && b {
+					return "SetBitsExp sets the receiver to a positive number: the sign must be cleared"
+				}
+				if f := first(retIsObj(o, z), wantField(m, o, z, F.Prec, 5, "prec"), wantField(m, o, z, F.Mode, zMode, "mode")); f != "" {
+					return f
+				}
+				switch {
+				case len(evs) > 0 && !(known && positive):
+					return "setExpAndRound is entered on a path that has not established a non-empty mantissa (an all-zero slice is the value 0, not a finite number)"
+				case len(evs) == 0 && known && positive:
+					return "a non-empty mantissa must be given its exponent and rounded (setExpAndRound)"
+				case len(evs) > 0:
+					if b, ok := evRecvBool(m, evs[0], F.Neg); ok && b {
+						return "setExpAndRound entered with the old sign: the rounding direction depends on it"
+					}
+				case known && !positive:
+					return first(wantField(m, o, z, F.Form, e.zero, "form (all-zero slice)"), wantField(m, o, z, F.Acc, e.exact, "acc (all-zero slice: nothing is lost)"), wantNeg(m, o, z, false))
+				}
+				return ""
+			})
+		}
+	}
+	if fn := m.TryLookup("(*Decimal).BitsExp"); fn != nil {
+		for c := 0; c < 6; c++ {
+			it := stdInterp(m)
+			st := cdai.NewState()
+			x := mkDec(m, st, decSpec{form: i64(e.formOf(c)), neg: bptr(negOf(c)), prec: i64(5), mode: i64(zMode), acc: i64(e.below), exp: i64(9)})
+			cc := c
+			mantSym := st.Get(x, F.Mant)
+			cell(m, s, R, fmt.Sprintf("BitsExp(%s)", classNames[c]), fn, it, st, []cdai.Val{x}, cdai.Obj{}, func(o cdai.Outcome) string {
+				if o.Kind != "return" || len(o.Vals) != 2 {
+					return ""
+				}
+				if e.formOf(cc) == e.finite {
+					if g, ok := retInt(o, 1); ok && g != 9 {
+						return fmt.Sprintf("the exponent returned is %d, x's is 9", g)
+					}
+					return ""
+				}
+				if sy, ok := o.Vals[0].(cdai.Sym); ok && sy == mantSym {
+					return "the whole mantissa buffer of a zero or an infinity is handed out as its digits: whatever an earlier value left there (BitsExp denotes exactly the receiver's magnitude)"
+				}
+				return ""
+			})
 		}
 	}
 
@@ -674,6 +799,29 @@ func runTUnary(m *model.Model, s *ob.Set) {
 			z, ok := o.Vals[0].(cdai.Obj)
 			if !ok {
 				return "must return a fresh Decimal"
+			}
+			// the magnitude handed on is |x| (for MinInt64: 2**63, which the unsigned conversion gives)
+			// (the magnitude is the unsigned 64-bit parameter, wherever it stands)
+			magIdx := -1
+			if sb := m.TryLookup("(*Decimal).setBits64"); sb != nil {
+				for i, p := range sb.Params {
+					if bt, ok := p.Type().Underlying().(*types.Basic); ok && bt.Kind() == types.Uint64 {
+						magIdx = i
+					}
+				}
+			}
+			for _, ev := range findEvents(o.St, "(*Decimal).setBits64") {
+				if magIdx >= 0 && magIdx < len(ev.Args) {
+					if c, ok := ev.Args[magIdx].(cdai.Const); ok && c.V != nil {
+						want := constant.MakeInt64(x)
+						if x < 0 {
+							want = constant.UnaryOp(token.SUB, want, 0)
+						}
+						if !constant.Compare(c.V, token.EQL, want) {
+							return fmt.Sprintf("the magnitude stored for x = %d is %s, not |x|", x, c.V.ExactString())
+						}
+					}
+				}
 			}
 			return checkBits64(m, e, o, z, x < 0, x == 0, e.defaultPrec, e.nearEven)
 		})
@@ -1003,6 +1151,177 @@ func runTConv(m *model.Model, s *ob.Set) {
 			})
 		}
 	}
+	// ---- SetFloat: the scaling by the binary exponent. x = m·2**e2 with m in [0.5, 1); the
+	// mantissa is made an integer by taking fp = MinPrec bits out of the exponent, and what is left,
+	// L = e2 − fp, scales the integer: by Mul when positive, by Quo when negative, not at all when 0
+	if fn := m.TryLookup("(*Decimal).SetFloat"); fn != nil {
+		it := stdInterp(m)
+		b := func(v bool) ([]cdai.Val, bool) { return []cdai.Val{cdai.Bool(v)}, true }
+		it.Models["math/big.(*Float).Signbit"] = func(*cdai.Interp, *cdai.State, string, []cdai.Val) ([]cdai.Val, bool) { return b(false) }
+		it.Models["math/big.(*Float).IsInf"] = func(*cdai.Interp, *cdai.State, string, []cdai.Val) ([]cdai.Val, bool) { return b(false) }
+		it.Models["math/big.(*Int).BitLen"] = func(*cdai.Interp, *cdai.State, string, []cdai.Val) ([]cdai.Val, bool) {
+			return []cdai.Val{cdai.Int(53)}, true
+		}
+		it.Models["math/big.(*Int).Sign"] = func(*cdai.Interp, *cdai.State, string, []cdai.Val) ([]cdai.Val, bool) {
+			return []cdai.Val{cdai.Int(1)}, true
+		}
+		it.Models["math/big.(*Float).MantExp"] = func(*cdai.Interp, *cdai.State, string, []cdai.Val) ([]cdai.Val, bool) {
+			return []cdai.Val{cdai.Sym{Name: "e2"}}, true
+		}
+		it.Models["math/big.(*Float).MinPrec"] = func(*cdai.Interp, *cdai.State, string, []cdai.Val) ([]cdai.Val, bool) {
+			return []cdai.Val{cdai.Sym{Name: "fp"}}, true
+		}
+		it.Traced["math/big.(*Float).SetMantExp"] = true
+		it.Traced["math/big.(*Float).Int"] = true
+		it.Traced["(*Decimal).pow2"] = true
+		it.BinHook = linHook(func(n string) bool { return n == "e2" || n == "fp" }, nil)
+		st := cdai.NewState()
+		const zp = 9
+		z := mkDec(m, st, decSpec{prec: i64(zp), mode: i64(e.posInf), acc: i64(e.below)})
+		L := linF{t: map[string]int64{"e2": 1, "fp": -1}}
+		cell(m, s, R, "SetFloat(+finite) scaling by the binary exponent", fn, it, st, []cdai.Val{z, cdai.Sym{Name: "x"}}, z, func(o cdai.Outcome) string {
+			if o.Kind != "return" {
+				return ""
+			}
+			fs := factsOf(o.St.Decs)
+			if fs.contradictory() {
+				return ""
+			}
+			// the mantissa is scaled to an integer by exactly fp bits before it is read
+			seenSME := false
+			for _, ev := range o.St.Trace {
+				switch ev.Fn {
+				case "math/big.(*Float).SetMantExp":
+					if len(ev.Args) == 3 {
+						if l, ok := linOf(ev.Args[2]); ok {
+							if !l.equal(linF{t: map[string]int64{"fp": 1}}) {
+								return fmt.Sprintf("the binary mantissa is scaled by %s bits before it is read as an integer; it has fp = MinPrec() significant bits", l)
+							}
+							seenSME = true
+						}
+					}
+				case "math/big.(*Float).Int":
+					if !seenSME {
+						return "the binary mantissa (a fraction in [0.5, 1)) is read as an integer without having been scaled by its MinPrec() bits"
+					}
+				}
+			}
+			var scal []cdai.Event
+			var pows []linF
+			powsKnown := true
+			for _, ev := range o.St.Trace {
+				switch ev.Fn {
+				case "(*Decimal).Quo", "(*Decimal).Mul":
+					if sameObj(ev.Args[0], z) {
+						scal = append(scal, ev)
+					}
+				case "(*Decimal).pow2":
+					if len(ev.Args) == 2 {
+						if l, ok := linOf(ev.Args[1]); ok {
+							pows = append(pows, l)
+						} else {
+							powsKnown = false
+						}
+					}
+				}
+			}
+			kne, ne := fs.ask(L, token.NEQ)
+			if len(scal) == 0 {
+				if kne && ne {
+					return "the binary exponent left after the mantissa's bits were taken out (e2 − fp) is not zero on this path, but the value is not scaled by it"
+				}
+				return ""
+			}
+			if !(kne && ne) {
+				return "the value is scaled by a power of two on a path that has not established that the exponent left after the mantissa's bits were taken out (e2 − fp) is non-zero"
+			}
+			kind := scal[0].Fn
+			for _, ev := range scal {
+				if ev.Fn != kind {
+					return "the value is both multiplied and divided by powers of two"
+				}
+				if p, ok := evRecvInt(m, ev, F.Prec); ok && p <= zp {
+					return fmt.Sprintf("%s scales the binary mantissa at prec=%d, not above the final precision %d (no guard digit: double rounding)", ev.Fn, p, zp)
+				}
+			}
+			kneg, neg := fs.ask(L, token.LSS)
+			if kind == "(*Decimal).Quo" && !(kneg && neg) {
+				return "the value is divided by a power of two on a path where e2 − fp is not known to be negative"
+			}
+			if kind == "(*Decimal).Mul" && !(kneg && !neg) {
+				return "the value is multiplied by a power of two on a path where e2 − fp is not known to be positive"
+			}
+			if powsKnown && len(pows) == len(scal) {
+				sum := linConst(0)
+				for _, p := range pows {
+					sum = sum.add(p, 1)
+				}
+				want := L
+				if kind == "(*Decimal).Quo" {
+					want = L.scale(-1)
+				}
+				if !sum.equal(want) {
+					return fmt.Sprintf("the powers of two applied add up to 2**(%s); the exponent to apply is %s", sum, want)
+				}
+			}
+			if len(scal) > 1 {
+				minExp, _ := constant.Int64Val(m.PkgConst("MinExp"))
+				// (the boundary itself may go either way: both forms are right at e2 − fp = MinExp)
+				if k, small := fs.ask(L.add(linConst(minExp+(1<<20)), -1), token.LSS); !(k && small) {
+					return "the division is split in two although e2 − fp is not known to be near or below MinExp (the second exponent is then not known to be non-negative)"
+				}
+			}
+			return ""
+		})
+	}
+	// ---- Float32 / Float64: the accuracy of the two-step conversion Decimal -> big.Float -> float
+	// is that of the second step, unless that step was exact: then it is the first step's
+	for _, nm := range []string{"Float32", "Float64"} {
+		fn := m.TryLookup("(*Decimal)." + nm)
+		if fn == nil {
+			continue
+		}
+		for _, a := range []int64{-1, 0, 1} {
+			aa, nmm := a, nm
+			it := stdInterp(m)
+			it.Models["(*Decimal).Float"] = func(*cdai.Interp, *cdai.State, string, []cdai.Val) ([]cdai.Val, bool) {
+				return []cdai.Val{cdai.Sym{Name: "zf"}}, true
+			}
+			it.Models["math/big.(*Float)."+nm] = func(*cdai.Interp, *cdai.State, string, []cdai.Val) ([]cdai.Val, bool) {
+				return []cdai.Val{cdai.Tuple{cdai.Sym{Name: "f"}, cdai.Int(aa)}}, true
+			}
+			it.Models["math/big.(*Float).Acc"] = func(*cdai.Interp, *cdai.State, string, []cdai.Val) ([]cdai.Val, bool) {
+				return []cdai.Val{cdai.Sym{Name: "zacc"}}, true
+			}
+			st := cdai.NewState()
+			x := mkDec(m, st, decSpec{form: i64(e.finite), neg: bptr(false), prec: i64(20), mode: i64(e.nearEven), acc: i64(e.exact), exp: i64(3)})
+			cell(m, s, R, fmt.Sprintf("%s big.Float->float accuracy %d", nm, a), fn, it, st, []cdai.Val{x}, cdai.Obj{}, func(o cdai.Outcome) string {
+				if o.Kind != "return" || len(o.Vals) != 2 {
+					return ""
+				}
+				// judged only where the propagation saw the second conversion step happen (behind a
+				// func value it does not)
+				if len(findEvents(o.St, "math/big.(*Float)."+nmm)) == 0 {
+					return ""
+				}
+				if sy, ok := o.Vals[0].(cdai.Sym); ok && sy.Name != "f" {
+					return "the value returned is not the one big.Float." + nmm + " produced"
+				}
+				got := o.Vals[1]
+				k, isK := cdai.ConstInt(got)
+				sy, isSym := got.(cdai.Sym)
+				switch {
+				case aa != 0 && isK && k != aa:
+					return fmt.Sprintf("the second conversion step rounded (accuracy %d) but the accuracy returned is %d", aa, k)
+				case aa != 0 && isSym && sy.Name == "zacc":
+					return fmt.Sprintf("the second conversion step rounded (accuracy %d) but the accuracy returned is that of the first step", aa)
+				case aa == 0 && isK:
+					return fmt.Sprintf("the second conversion step was exact, so the accuracy is that of the Decimal -> big.Float step, not the constant %d", k)
+				}
+				return ""
+			})
+		}
+	}
 	// ---- SetFloat(*big.Float)
 	for _, c := range fcs[1:] {
 		for _, zp := range []int64{0, 9} {
@@ -1017,7 +1336,7 @@ func runTConv(m *model.Model, s *ob.Set) {
 				}
 				return []cdai.Val{cdai.Int(53)}, true
 			}
-			it.Models["math/big.(*Int).Sign"] = func(*cdai.Interp, *cdai.State, string, []cdai.Val) ([]cdai.Val, bool) {
+			signModel := func(*cdai.Interp, *cdai.State, string, []cdai.Val) ([]cdai.Val, bool) {
 				switch {
 				case cc.zero:
 					return []cdai.Val{cdai.Int(0)}, true
@@ -1026,6 +1345,8 @@ func runTConv(m *model.Model, s *ob.Set) {
 				}
 				return []cdai.Val{cdai.Int(1)}, true
 			}
+			it.Models["math/big.(*Int).Sign"] = signModel
+			it.Models["math/big.(*Float).Sign"] = signModel
 			st := cdai.NewState()
 			z := mkDec(m, st, decSpec{prec: i64(zp), mode: i64(e.posInf), acc: i64(e.below)})
 			cell(m, s, R, fmt.Sprintf("SetFloat(%s) zprec=%d", c.name, zp), m.Lookup("(*Decimal).SetFloat"), it, st, []cdai.Val{z, cdai.Sym{Name: "x"}}, z, func(o cdai.Outcome) string {
@@ -1044,7 +1365,9 @@ func runTConv(m *model.Model, s *ob.Set) {
 					if f, ok := fInt(m, o.St, z, F.Form); ok && f == e.inf {
 						return "a zero argument must not become an infinity"
 					}
-					return ""
+					// ±0 maps to itself: the zero of the argument's sign, exactly (a conversion that
+					// goes through the integer 0 has lost the sign of -0)
+					return first(wantField(m, o, z, F.Form, e.zero, "form"), wantNeg(m, o, z, cc.neg), wantField(m, o, z, F.Acc, e.exact, "acc"))
 				}
 				if f, ok := fInt(m, o.St, z, F.Form); ok && f == e.inf && len(findEvents(o.St, "(*Decimal).round")) == 0 {
 					return "a finite argument became an infinity without any arithmetic (dispatch on the wrong variable)"
